@@ -176,10 +176,16 @@ static std::pair<long, int> run_history(const uint8_t* data, size_t size, bool c
         MatchRule m0; std::string w0;
         if (parse_match_rule(texts[i][pick(f, texts[i].size())], &m0, &w0) == RuleParse::Ok) {
           std::vector<int> present; if (m0.has_path) present.push_back(0); if (m0.has_path_ns) present.push_back(1); if (m0.has_member) present.push_back(2); if (m0.has_iface) present.push_back(3); if (!m0.args.empty()) present.push_back(4); if (!m0.argpaths.empty()) present.push_back(5); if (m0.has_arg0ns) present.push_back(6); if (m0.type) present.push_back(7); if (m0.has_sender) present.push_back(8); present.push_back(9);
+          // same index, same value, other key flavour (argN <-> argNpath): a different rule
+          if (!m0.args.empty() && !m0.argpaths.count(m0.args.begin()->first)) { present.push_back(10); present.push_back(10); }
+          if (!m0.argpaths.empty() && !m0.args.count(m0.argpaths.begin()->first)) { present.push_back(11); present.push_back(11); }
           switch (present[pick(f, present.size())]) {
             case 0: m0.path = kPath[pick(f, 7)]; break; case 1: m0.path_ns = kPath[pick(f, 7)]; break; case 2: m0.member = kMem[pick(f, 4)]; break; case 3: m0.iface = kIf[pick(f, 4)]; break;
             case 4: m0.args.begin()->second = kArg[pick(f, 16)]; break; case 5: m0.argpaths.begin()->second = kArg[pick(f, 16)]; break; case 6: m0.arg0ns = kNs[pick(f, 4)]; break;
-            case 7: m0.type = 1 + (int)pick(f, 4); break; case 8: m0.sender = senders[pick(f, senders.size())]; break; default: m0.eavesdrop = !m0.eavesdrop; break;
+            case 7: m0.type = 1 + (int)pick(f, 4); break; case 8: m0.sender = senders[pick(f, senders.size())]; break;
+            case 10: { auto kv = *m0.args.begin(); m0.args.erase(m0.args.begin()); m0.argpaths[kv.first] = kv.second; break; }
+            case 11: { auto kv = *m0.argpaths.begin(); m0.argpaths.erase(m0.argpaths.begin()); m0.args[kv.first] = kv.second; break; }
+            default: m0.eavesdrop = !m0.eavesdrop; break;
           }
           text = render_rule(m0);
         }
